@@ -39,16 +39,17 @@ RefError(files, root) ==
 Select(files, f, imp) ==
   LET t == Target(f, imp) IN
   IF t \notin DOMAIN files THEN {}
-  ELSE IF imp.wild THEN {<<t, n>> : n \in FragNames(files[t])}
-  ELSE {<<t, n>> : n \in Range(imp.names) \cap FragNames(files[t])}
+  ELSE IF imp.wild THEN {<<t, "frag", n>> : n \in FragNames(files[t])}
+  ELSE {<<t, "frag", n>> : n \in Range(imp.names) \cap FragNames(files[t])}
 
-(* the set of (file, definition name) the resolved document consists of *)
+(* the set of (file, kind, definition name) the resolved document consists of: operations and fragments are separate name spaces, *)
+(* and an import names FRAGMENTS only                                                                                            *)
 RefResult(files, root) ==
-  {<<root, n>> : n \in OpNames(files[root]) \cup FragNames(files[root])}
+  {<<root, "op", n>> : n \in OpNames(files[root])} \cup {<<root, "frag", n>> : n \in FragNames(files[root])}
   \cup UNION {UNION {Select(files, f, files[f].imports[i]) : i \in DOMAIN files[f].imports}
               : f \in Reach(files, root) \cap DOMAIN files}
 
-(* The property relation.  out = [k |-> "err"] or [k |-> "ok", defs |-> sequence of <<file, name>>] *)
+(* The property relation.  out = [k |-> "err"] or [k |-> "ok", defs |-> sequence of <<file, kind, name>>] *)
 NoDup(s) == \A i, j \in DOMAIN s : i # j => s[i] # s[j]
 ImportContract(files, root, out) ==
   IF RefError(files, root) THEN out.k = "err"
